@@ -5,6 +5,7 @@ import (
 	"go/constant"
 	"go/token"
 	"go/types"
+	"sort"
 	"strings"
 
 	"golang.org/x/tools/go/ssa"
@@ -358,5 +359,15 @@ func callsIn(fn *ssa.Function) []ssa.CallInstruction {
 			out = append(out, c)
 		}
 	})
+	return out
+}
+
+// sortedKeys returns the keys of a function map in sorted order (deterministic obligations).
+func sortedKeys(m map[string]*ssa.Function) []string {
+	out := make([]string, 0, len(m))
+	for k := range m {
+		out = append(out, k)
+	}
+	sort.Strings(out)
 	return out
 }
